@@ -36,6 +36,7 @@ type e2eScript struct {
 	respAE  string
 	respCE  string
 	gzip    bool // the segments are a gzip stream of the document; Content-Encoding: gzip
+	setCL   bool // net/http origins (h2, h3): declare Content-Length
 	segs    [][]byte
 	framing string // cl | chunked | close   (raw h1 origin)
 	gap     time.Duration
@@ -131,6 +132,13 @@ func (o *e2eOrigins) handler(w http.ResponseWriter, r *http.Request) {
 	}
 	if s.gzip {
 		w.Header().Set("Content-Encoding", "gzip")
+	}
+	if s.setCL {
+		total := 0
+		for _, seg := range s.segs {
+			total += len(seg)
+		}
+		w.Header().Set("Content-Length", strconv.Itoa(total))
 	}
 	w.WriteHeader(200)
 	f, _ := w.(http.Flusher)
@@ -247,8 +255,22 @@ func (r *recorder) Read(p []byte) (int, error) {
 	return n, err
 }
 
-func e2eClient(stack string, set settings) *req.Client {
-	k := stack[:2] + "|" + set.name()
+// a transport middleware of a very common shape: it puts its own reader around the response body
+type countingBody struct {
+	io.ReadCloser
+	n int64
+}
+
+func (b *countingBody) Read(p []byte) (int, error) {
+	n, err := b.ReadCloser.Read(p)
+	b.n += int64(n)
+	return n, err
+}
+
+// mw: "" (no transport middleware) | pass (middleware that leaves the response alone) | wrap (middleware
+// that re-wraps resp.Body); clone: the client used is a Clone() of the configured one
+func e2eClient(stack string, set settings, mw string, clone bool) *req.Client {
+	k := fmt.Sprintf("%s|%s|%s|%v", stack[:2], set.name(), mw, clone)
 	if c, ok := e2eClients[k]; ok {
 		return c
 	}
@@ -273,6 +295,21 @@ func e2eClient(stack string, set settings) *req.Client {
 		ans := set.FnAns
 		c.SetAutoDecodeContentTypeFunc(func(string) bool { return ans })
 	}
+	if mw != "" {
+		wrap := mw == "wrap"
+		c.GetTransport().WrapRoundTripFunc(func(rt http.RoundTripper) req.HttpRoundTripFunc {
+			return func(r *http.Request) (*http.Response, error) {
+				resp, err := rt.RoundTrip(r)
+				if err == nil && wrap && resp.Body != nil {
+					resp.Body = &countingBody{ReadCloser: resp.Body}
+				}
+				return resp, err
+			}
+		})
+	}
+	if clone {
+		c = c.Clone()
+	}
 	e2eClients[k] = c
 	return c
 }
@@ -296,7 +333,7 @@ func driveE2E(u *unitCase) (o obs) {
 	if i := strings.Index(u.Stack, "-"); i > 0 {
 		framing = u.Stack[i+1:]
 	}
-	id := theOrigins.add(&e2eScript{ct: u.Doc.CT, respAE: u.Set.RespAE, respCE: u.Set.RespCE, gzip: u.Gzip, segs: u.Chunks, framing: framing, gap: time.Duration(u.GapMS) * time.Millisecond})
+	id := theOrigins.add(&e2eScript{ct: u.Doc.CT, respAE: u.Set.RespAE, respCE: u.Set.RespCE, gzip: u.Gzip, setCL: u.SetCL, segs: u.Chunks, framing: framing, gap: time.Duration(u.GapMS) * time.Millisecond})
 	done := make(chan obs, 1)
 	go func() {
 		var o obs
@@ -311,7 +348,7 @@ func driveE2E(u *unitCase) (o obs) {
 			rec = &recorder{ReadCloser: rc}
 			return rec
 		})
-		cl := e2eClient(u.Stack, u.Set)
+		cl := e2eClient(u.Stack, u.Set, u.Middleware, u.CloneClient)
 		url := theOrigins.url(u.Stack, id)
 		if u.HighLevel {
 			// the public API: Client.R().Get + Response.Bytes() (io.ReadAll on the decoded body)
@@ -324,6 +361,8 @@ func driveE2E(u *unitCase) (o obs) {
 			switch u.HLMode {
 			case "buffer":
 				rq.SetOutput(&buf)
+			case "buffer-callback": // the download callback's wrapper is installed by handleResponseBody below the decoder
+				rq.SetOutput(&buf).SetDownloadCallbackWithInterval(func(req.DownloadInfo) {}, time.Millisecond)
 			case "writer":
 				rq.SetOutput(plainWriter{&buf})
 			case "file": // SetOutputFile: os.Create + io.Copy (*os.File.ReadFrom -> generic copy, 32 KiB buffer)
@@ -337,7 +376,7 @@ func driveE2E(u *unitCase) (o obs) {
 			}
 			o.Kind = "highlevel"
 			switch u.HLMode {
-			case "buffer", "writer":
+			case "buffer", "writer", "buffer-callback":
 				o.Out = buf.Bytes()
 			case "file":
 				b, err := os.ReadFile(file)
@@ -376,6 +415,9 @@ func driveE2E(u *unitCase) (o obs) {
 			readLoop(res.Body, u.Pattern, u.BufMode, 3*len(u.Doc.Body)+2*len(u.Chunks)+200, &o)
 			res.Body.Close()
 		}
+		if rec == nil && u.HLMode == "buffer-callback" {
+			return // the download callback took the body-wrapper slot; nothing is recorded (Go oracle only)
+		}
 		if rec == nil {
 			o.Fatal = "body wrapper was not installed"
 			return
@@ -399,7 +441,7 @@ func driveE2E(u *unitCase) (o obs) {
 			}
 		}
 		if !sawEOF && o.Fatal == "" {
-			o.Fatal = "decoder finished without reading the network to EOF"
+			o.Sanity = "the reading finished without reading the network to EOF"
 		}
 	}()
 	select {
@@ -409,6 +451,34 @@ func driveE2E(u *unitCase) (o obs) {
 	}
 	o.NCalls, o.OutLen = len(o.Calls), len(o.Out)
 	return o
+}
+
+// bigBodies: bodies around and beyond 64 KiB with a declared Content-Length, read through the public API
+// (auto-read / ToBytes / String) and through Body.Read: transcoding changes the length, whatever reads the
+// body must read it to io.EOF, not to the declared length
+func (w *world) bigBodies() {
+	rnd := w.rnd
+	n := w.r.Scale(14, 120)
+	names := []string{"gbk", "big5", "shift_jis", "utf-16le", "windows-1251", "iso-8859-1", "euc-kr", "gb18030"}
+	for i := 0; i < n; i++ {
+		cs := specByName(names[i%len(names)])
+		s := hk.Pick(rnd, []site{siteHeader, siteHeader, siteMeta})
+		if cs.UTF16 {
+			s = hk.Pick(rnd, []site{siteHeader, siteBOM})
+		}
+		d, ok := makeDoc(rnd, s, cs, hk.Pick(rnd, []int{65535, 65536, 65537, 66000, 98304, 131072}))
+		if !ok {
+			continue
+		}
+		segs := splitAt(d.Body, []int{rnd.Intn(len(d.Body) + 1)})
+		stack := []string{"h1-cl", "h2", "h3", "h1-cl", "h1-chunked"}[i%5]
+		hl := []string{"bytes", "string", "", "bytes", "buffer"}[(i/2)%5]
+		u := &unitCase{Kind: "e2e", Doc: d, Set: defaultSet, Chunks: segs, Pattern: []int{hk.Pick(rnd, []int{4096, 32768})},
+			BufMode: "zero", FailAt: -1, Stack: stack, GapMS: 2, HighLevel: hl != "", HLMode: hl, SetCL: true,
+			Middleware: []string{"", "wrap"}[i%2]}
+		w.r.Count("e2e:big-body")
+		w.eval(u, false)
+	}
 }
 
 var e2eStacks = []string{"h1-cl", "h1-chunked", "h1-close", "h2", "h3"}
@@ -425,6 +495,7 @@ func (w *world) endToEnd() {
 	dlDir = filepath.Join(w.r.OutDir, "downloads")
 	os.MkdirAll(dlDir, 0o755)
 	defer os.RemoveAll(dlDir)
+	w.bigBodies()
 	rnd := w.rnd
 	n := w.r.Scale(170, 1500)
 	sets := []settings{defaultSet, defaultSet, defaultSet, {Sel: "all"}, {Sel: "default", Disable: true}, {Sel: "list", List: []string{"html"}}, {Sel: "default", RespAE: "gzip"}, {Sel: "default", RespCE: "x-custom"}}
@@ -471,7 +542,7 @@ func (w *world) endToEnd() {
 				segs = [][]byte{z}
 			}
 		}
-		hl := []string{"bytes", "buffer", "writer", "string", "into", "file"}[(i/3)%6]
+		hl := hk.Pick(rnd, []string{"bytes", "buffer", "writer", "string", "into", "file", "buffer-callback", "buffer-callback"})
 		if st := sets[i%len(sets)]; hl == "into" && (gz || st.Disable || st.RespCE != "" || st.Sel != "default") {
 			hl = "string" // Into on an undecoded body would go through encoding/json's own U+FFFD substitution
 		}
@@ -486,7 +557,8 @@ func (w *world) endToEnd() {
 			}
 		}
 		u := &unitCase{Kind: "e2e", Doc: d, Set: sets[i%len(sets)], Chunks: segs, Pattern: hk.Pick(rnd, sizePatterns[3:]),
-			BufMode: hk.Pick(rnd, []string{"zero", "stale-meta", "reuse"}), FailAt: -1, Stack: e2eStacks[i%len(e2eStacks)], GapMS: 6, HighLevel: i%3 == 2, HLMode: hl, Gzip: gz}
+			BufMode: hk.Pick(rnd, []string{"zero", "stale-meta", "reuse"}), FailAt: -1, Stack: e2eStacks[i%len(e2eStacks)], GapMS: 6, HighLevel: i%3 == 2, HLMode: hl, Gzip: gz,
+			Middleware: hk.Pick(rnd, []string{"", "", "wrap", "pass", "wrap"}), CloneClient: rnd.Intn(3) == 0}
 		w.eval(u, len(d.Body) <= 1600)
 	}
 }
